@@ -1894,7 +1894,8 @@ class FileIterator(FileStorageFormatter):
             # small enough, otherwise we'll fail.
             file.seek(self._file_size - 8)
             l_ = u64(file.read(8))
-            if not (l_ + 12 <= self._file_size and
+            if not (TRANS_HDR_LEN <= l_ and
+                    l_ + 12 <= self._file_size and
                     self._read_num(self._file_size - l_) == l_):
                 if self._file_size < (1 << 20):
                     return self._scan_forward(pos1, start)
